@@ -1,5 +1,851 @@
-//! pure-probe suite `bpb` (see /verif/ARCH.md). STUB — to be replaced.
-use crate::util::Tier;
-use std::io::Write;
+//! pure-probe suite `bpb` (see /verif/ARCH.md): boot-sector parsing, validation and derived geometry.
+//!
+//! ```text
+//! P bpb.probe <bs-hex512> <strict> => <the 17 BpbProbe fields in declaration order> | ERR <code> | PANIC
+//! P bpb.mount <bs-hex512> <fsinfo-hex512> <strict> => ok <fat_bits> <cluster_size> <total_clusters> <free|none>
+//!                                                    | ERR <code> | PANIC
+//! ```
+//! `bpb.probe` calls `fatfs::verif::bpb_probe`. `bpb.mount` calls the real `FileSystem::new` on `PeriodicDev`: an
+//! unbounded read-only device whose first 512 bytes are the boot sector and whose every other 512-byte block is the
+//! FS-info sector. The cached free count is observed through `stats()` after device reads have been switched off
+//! (`stats()` answers from the cache or fails trying to scan the FAT).
+use crate::rng::SplitMix64;
+use crate::util::{b, catch, hex, opt, Tier};
+use fatfs::verif::{bpb_probe, format_boot_sector_bytes};
+use fatfs::{FatType, FileSystem, FormatVolumeOptions, FsOptions, IoBase, Read, Seek, SeekFrom, Write};
+use std::cell::Cell;
+use std::io::Write as IoWrite;
+use std::rc::Rc;
 
-pub fn run(_tier: Tier, _seed: u64, _out: &mut dyn Write) {}
+type Sector = [u8; 512];
+
+// ---------------------------------------------------------------------------------------------------------------
+// device for the real mount
+// ---------------------------------------------------------------------------------------------------------------
+
+struct PeriodicDev {
+    bs: Sector,
+    fsinfo: Sector,
+    pos: u64,
+    fail: Rc<Cell<bool>>,
+}
+
+impl IoBase for PeriodicDev {
+    type Error = ();
+}
+
+impl Read for PeriodicDev {
+    fn read(&mut self, buf: &mut [u8]) -> Result<usize, ()> {
+        if self.fail.get() {
+            return Err(());
+        }
+        for (i, out) in buf.iter_mut().enumerate() {
+            let p = self.pos.wrapping_add(i as u64);
+            *out = if p < 512 { self.bs[p as usize] } else { self.fsinfo[(p % 512) as usize] };
+        }
+        self.pos = self.pos.wrapping_add(buf.len() as u64);
+        Ok(buf.len())
+    }
+}
+
+impl Write for PeriodicDev {
+    fn write(&mut self, _buf: &[u8]) -> Result<usize, ()> {
+        // mounting must not write; surfaces as PANIC, i.e. as a mismatch with the model
+        panic!("write during mount");
+    }
+    fn flush(&mut self) -> Result<(), ()> {
+        Ok(())
+    }
+}
+
+impl Seek for PeriodicDev {
+    fn seek(&mut self, pos: SeekFrom) -> Result<u64, ()> {
+        match pos {
+            SeekFrom::Start(n) => self.pos = n,
+            SeekFrom::Current(d) => self.pos = self.pos.wrapping_add(d as u64),
+            SeekFrom::End(_) => return Err(()),
+        }
+        Ok(self.pos)
+    }
+}
+
+// ---------------------------------------------------------------------------------------------------------------
+// probes
+// ---------------------------------------------------------------------------------------------------------------
+
+fn fat_bits(t: FatType) -> u8 {
+    match t {
+        FatType::Fat12 => 12,
+        FatType::Fat16 => 16,
+        FatType::Fat32 => 32,
+    }
+}
+
+struct Gen<'a> {
+    out: &'a mut dyn IoWrite,
+    n: u64,
+    limit: u64,
+}
+
+impl Gen<'_> {
+    fn full(&self) -> bool {
+        self.n >= self.limit
+    }
+
+    fn probe(&mut self, bs: &Sector, strict: bool) {
+        let r = catch(|| bpb_probe(bs, strict));
+        let res = match r {
+            None => "PANIC".to_string(),
+            Some(Err(code)) => format!("ERR {}", code),
+            Some(Ok(p)) => format!(
+                "{} {} {} {} {} {} {} {} {} {} {} {} {} {} {} {} {}",
+                p.fat_bits,
+                p.bytes_per_sector,
+                p.cluster_size,
+                p.total_clusters,
+                p.first_data_sector,
+                p.root_dir_sectors,
+                p.sectors_per_fat,
+                p.reserved_sectors,
+                p.fats,
+                p.total_sectors,
+                b(p.mirroring),
+                p.active_fat,
+                p.root_dir_first_cluster,
+                p.fs_info_sector,
+                p.backup_boot_sector,
+                b(p.status_dirty),
+                b(p.status_io_error)
+            ),
+        };
+        writeln!(self.out, "P bpb.probe {} {} => {}", hex(bs), b(strict), res).unwrap();
+        self.n += 1;
+    }
+
+    fn probe_both(&mut self, bs: &Sector) {
+        self.probe(bs, true);
+        self.probe(bs, false);
+    }
+
+    fn mount(&mut self, bs: &Sector, fsinfo: &Sector, strict: bool) {
+        let r = catch(|| {
+            let fail = Rc::new(Cell::new(false));
+            let dev = PeriodicDev { bs: *bs, fsinfo: *fsinfo, pos: 0, fail: fail.clone() };
+            match FileSystem::new(dev, FsOptions::new().strict(strict)) {
+                Err(e) => format!("ERR {}", fatfs::verif::error_code(&e)),
+                Ok(fs) => {
+                    let bits = fat_bits(fs.fat_type());
+                    let cs = fs.cluster_size();
+                    // the cluster count FileSystem::new cached is bpb.total_clusters(); stats() exposes it only
+                    // together with the free count, so take it from the hook and cross-check when stats() answers
+                    let total = bpb_probe(bs, strict).map_or(u32::MAX, |p| p.total_clusters);
+                    fail.set(true);
+                    let free = match fs.stats() {
+                        Ok(s) => {
+                            assert_eq!(s.total_clusters(), total);
+                            assert_eq!(s.cluster_size(), cs);
+                            Some(s.free_clusters())
+                        }
+                        Err(_) => None,
+                    };
+                    drop(fs);
+                    format!("ok {} {} {} {}", bits, cs, total, opt(free))
+                }
+            }
+        });
+        let res = r.unwrap_or_else(|| "PANIC".to_string());
+        writeln!(self.out, "P bpb.mount {} {} {} => {}", hex(bs), hex(fsinfo), b(strict), res).unwrap();
+        self.n += 1;
+    }
+}
+
+// ---------------------------------------------------------------------------------------------------------------
+// boot-sector fields
+// ---------------------------------------------------------------------------------------------------------------
+
+#[derive(Clone, Copy, Debug)]
+struct Field {
+    off: usize,
+    width: usize, // bytes
+}
+
+const F_BPS: Field = Field { off: 11, width: 2 };
+const F_SPC: Field = Field { off: 13, width: 1 };
+const F_RSVD: Field = Field { off: 14, width: 2 };
+const F_FATS: Field = Field { off: 16, width: 1 };
+const F_ROOT: Field = Field { off: 17, width: 2 };
+const F_TS16: Field = Field { off: 19, width: 2 };
+const F_MEDIA: Field = Field { off: 21, width: 1 };
+const F_SPF16: Field = Field { off: 22, width: 2 };
+const F_SPT: Field = Field { off: 24, width: 2 };
+const F_HEADS: Field = Field { off: 26, width: 2 };
+const F_HIDDEN: Field = Field { off: 28, width: 4 };
+const F_TS32: Field = Field { off: 32, width: 4 };
+// FAT32 layout
+const F_SPF32: Field = Field { off: 36, width: 4 };
+const F_EXTFLAGS: Field = Field { off: 40, width: 2 };
+const F_FSVER: Field = Field { off: 42, width: 2 };
+const F_ROOTCLUS: Field = Field { off: 44, width: 4 };
+const F_FSINFO: Field = Field { off: 48, width: 2 };
+const F_BACKUP: Field = Field { off: 50, width: 2 };
+const F_DRIVE32: Field = Field { off: 64, width: 1 };
+const F_RES1_32: Field = Field { off: 65, width: 1 };
+const F_EXTSIG32: Field = Field { off: 66, width: 1 };
+const F_VOLID32: Field = Field { off: 67, width: 4 };
+// FAT12/16 layout (the same bytes are sectors_per_fat_32 … in the FAT32 layout)
+const F_DRIVE16: Field = Field { off: 36, width: 1 };
+const F_RES1_16: Field = Field { off: 37, width: 1 };
+const F_EXTSIG16: Field = Field { off: 38, width: 1 };
+const F_VOLID16: Field = Field { off: 39, width: 4 };
+const F_SIG0: Field = Field { off: 510, width: 1 };
+const F_SIG1: Field = Field { off: 511, width: 1 };
+const F_JMP0: Field = Field { off: 0, width: 1 };
+
+const FIELDS8: [Field; 13] = [
+    F_SPC, F_FATS, F_MEDIA, F_DRIVE32, F_RES1_32, F_EXTSIG32, F_DRIVE16, F_RES1_16, F_EXTSIG16, F_SIG0, F_SIG1,
+    F_JMP0,
+    Field { off: 52, width: 1 }, // reserved_0[0]
+];
+const FIELDS16: [Field; 11] =
+    [F_BPS, F_RSVD, F_ROOT, F_TS16, F_SPF16, F_SPT, F_HEADS, F_EXTFLAGS, F_FSVER, F_FSINFO, F_BACKUP];
+const FIELDS32: [Field; 6] = [F_HIDDEN, F_TS32, F_SPF32, F_ROOTCLUS, F_VOLID32, F_VOLID16];
+/// fields that take part in the geometry arithmetic
+const GEO_FIELDS: [Field; 13] =
+    [F_BPS, F_SPC, F_RSVD, F_FATS, F_ROOT, F_TS16, F_SPF16, F_TS32, F_SPF32, F_ROOTCLUS, F_FSINFO, F_BACKUP, F_FSVER];
+
+fn get(bs: &Sector, f: Field) -> u64 {
+    let mut v = 0u64;
+    for i in (0..f.width).rev() {
+        v = (v << 8) | u64::from(bs[f.off + i]);
+    }
+    v
+}
+
+fn set(bs: &mut Sector, f: Field, v: u64) {
+    for i in 0..f.width {
+        bs[f.off + i] = (v >> (8 * i)) as u8;
+    }
+}
+
+fn with(bs: &Sector, f: Field, v: u64) -> Sector {
+    let mut c = *bs;
+    set(&mut c, f, v);
+    c
+}
+
+fn mask(f: Field) -> u64 {
+    if f.width == 8 {
+        u64::MAX
+    } else {
+        (1u64 << (8 * f.width)) - 1
+    }
+}
+
+/// 0, max, all 2^k and 2^k±1 (masked to the width)
+fn pow_values(f: Field) -> Vec<u64> {
+    let m = mask(f);
+    let mut v = vec![0, 1, 2, 3, m, m - 1, m - 2];
+    for k in 0..(8 * f.width) {
+        let p = 1u64 << k;
+        v.push(p);
+        v.push(p.wrapping_sub(1) & m);
+        v.push((p + 1) & m);
+    }
+    v.push(m / 2);
+    v.sort_unstable();
+    v.dedup();
+    v
+}
+
+fn around(vs: &mut Vec<u64>, x: i128, m: u64) {
+    for d in -2i128..=2 {
+        let y = x + d;
+        if y >= 0 && y <= i128::from(m) {
+            vs.push(y as u64);
+        }
+    }
+}
+
+/// (bps, spc, rsvd, fats, root_sectors, spf, total) as the FAT specification reads them
+struct Geo {
+    bps: u64,
+    spc: u64,
+    rsvd: u64,
+    fats: u64,
+    root_secs: u64,
+    spf: u64,
+    total: u64,
+    is32: bool,
+}
+
+fn geo(bs: &Sector) -> Geo {
+    let bps = get(bs, F_BPS).max(1);
+    let spf16 = get(bs, F_SPF16);
+    let ts16 = get(bs, F_TS16);
+    Geo {
+        bps,
+        spc: get(bs, F_SPC).max(1),
+        rsvd: get(bs, F_RSVD),
+        fats: get(bs, F_FATS),
+        root_secs: (get(bs, F_ROOT) * 32 + bps - 1) / bps,
+        spf: if spf16 != 0 { spf16 } else { get(bs, F_SPF32) },
+        total: if ts16 != 0 { ts16 } else { get(bs, F_TS32) },
+        is32: spf16 == 0,
+    }
+}
+
+const CLUSTER_MARKS: [u64; 6] = [0, 4085, 65525, 0x0FFF_FFF5, 0x0FFF_FFFF, 0x1000_0000];
+
+/// values of field `f` at which some case split of the model (given the other fields of `bs`) flips, ±2
+fn boundary_values(bs: &Sector, f: Field) -> Vec<u64> {
+    let g = geo(bs);
+    let m = mask(f);
+    let mut v = Vec::new();
+    let lim = 1i128 << 32;
+    let (bps, spc, rsvd, fats, root, spf, total) = (
+        i128::from(g.bps),
+        i128::from(g.spc),
+        i128::from(g.rsvd),
+        i128::from(g.fats),
+        i128::from(g.root_secs),
+        i128::from(g.spf),
+        i128::from(g.total),
+    );
+    let meta = rsvd + fats * spf + root;
+    match f.off {
+        11 => {
+            for x in [512, 1024, 2048, 4096, 32768] {
+                around(&mut v, x, m);
+            }
+            if spf > 0 {
+                around(&mut v, lim / (spf * 8), m);
+                around(&mut v, lim / spf, m);
+            }
+        }
+        14 => {
+            around(&mut v, 1, m);
+            around(&mut v, i128::from(get(bs, F_FSINFO)), m);
+            around(&mut v, i128::from(get(bs, F_BACKUP)), m);
+            around(&mut v, total - fats * spf - root, m);
+            for c in CLUSTER_MARKS {
+                around(&mut v, total - fats * spf - root - i128::from(c) * spc, m);
+            }
+        }
+        17 => {
+            around(&mut v, bps / 32, m);
+            around(&mut v, (total - rsvd - fats * spf) * bps / 32, m);
+            for c in CLUSTER_MARKS {
+                around(&mut v, (total - rsvd - fats * spf - i128::from(c) * spc) * bps / 32, m);
+            }
+        }
+        19 | 32 => {
+            around(&mut v, meta, m);
+            for c in CLUSTER_MARKS {
+                around(&mut v, meta + i128::from(c) * spc, m);
+                around(&mut v, meta + i128::from(c) * spc + spc, m);
+            }
+            around(&mut v, i128::from(get(bs, F_TS16)), m);
+            around(&mut v, i128::from(get(bs, F_TS32)), m);
+        }
+        22 | 36 => {
+            if fats > 0 {
+                around(&mut v, (total - rsvd - root) / fats, m);
+                around(&mut v, lim / fats, m);
+                around(&mut v, (lim - rsvd - root) / fats, m);
+                for c in CLUSTER_MARKS {
+                    around(&mut v, (total - rsvd - root - i128::from(c) * spc) / fats, m);
+                }
+            }
+            around(&mut v, lim / (bps * 8), m);
+            around(&mut v, lim / bps, m);
+            // FAT exactly large enough for the clusters
+            let clusters = (total - meta) / spc;
+            around(&mut v, ((clusters + 2) * 4 + bps - 1) / bps, m);
+        }
+        44 => {
+            let clusters = (total - meta) / spc;
+            around(&mut v, 2, m);
+            around(&mut v, clusters, m);
+            around(&mut v, clusters + 2, m);
+        }
+        48 | 50 => {
+            around(&mut v, rsvd, m);
+            around(&mut v, 0, m);
+        }
+        16 => {
+            if spf > 0 {
+                around(&mut v, lim / spf, m);
+                around(&mut v, (total - rsvd - root) / spf, m);
+            }
+        }
+        _ => {}
+    }
+    v.sort_unstable();
+    v.dedup();
+    v
+}
+
+fn interesting(bs: &Sector, f: Field) -> Vec<u64> {
+    let mut v = pow_values(f);
+    v.extend(boundary_values(bs, f));
+    v.sort_unstable();
+    v.dedup();
+    v
+}
+
+fn random_value(rng: &mut SplitMix64, bs: &Sector, f: Field) -> u64 {
+    match rng.below(10) {
+        0..=3 => {
+            let v = interesting(bs, f);
+            *rng.pick(&v)
+        }
+        4..=5 => {
+            // a small perturbation of the current value
+            let cur = get(bs, f);
+            let d = rng.below(9) as i64 - 4;
+            (cur as i64).wrapping_add(d) as u64 & mask(f)
+        }
+        6 => {
+            // a random power of two times a small factor
+            let k = rng.below(8 * f.width as u64);
+            ((1u64 << k).wrapping_mul(rng.range(1, 5))) & mask(f)
+        }
+        _ => rng.next_u64() & mask(f),
+    }
+}
+
+// ---------------------------------------------------------------------------------------------------------------
+// bases
+// ---------------------------------------------------------------------------------------------------------------
+
+fn base(opts: FormatVolumeOptions, total_sectors: u32) -> Sector {
+    let (bytes, _bits) = format_boot_sector_bytes(&opts, total_sectors).expect("base boot sector");
+    bytes
+}
+
+fn bases() -> Vec<Sector> {
+    vec![
+        // FAT12, 1 MiB
+        base(FormatVolumeOptions::new(), 2048),
+        // FAT16, 16 MiB
+        base(FormatVolumeOptions::new(), 32768),
+        // FAT32, 34 MiB, 512-byte clusters
+        base(FormatVolumeOptions::new().fat_type(FatType::Fat32).bytes_per_cluster(512), 69632),
+        // FAT32, 2 TiB - 512 B, 32 KiB clusters (numbers near the 32-bit limits)
+        base(FormatVolumeOptions::new().fat_type(FatType::Fat32).bytes_per_cluster(32768), 0xFFFF_FFFF),
+        // FAT32, 4096-byte sectors
+        base(
+            FormatVolumeOptions::new().fat_type(FatType::Fat32).bytes_per_sector(4096).bytes_per_cluster(4096),
+            0x0100_0000,
+        ),
+        // FAT16 with 2048-byte sectors and a non-sector-aligned root directory
+        base(
+            FormatVolumeOptions::new().bytes_per_sector(2048).max_root_dir_entries(100).fat_type(FatType::Fat16),
+            20000,
+        ),
+    ]
+}
+
+fn valid_fsinfo(free: u32, next: u32) -> Sector {
+    let mut s = [0u8; 512];
+    s[0..4].copy_from_slice(&0x4161_5252u32.to_le_bytes());
+    s[484..488].copy_from_slice(&0x6141_7272u32.to_le_bytes());
+    s[488..492].copy_from_slice(&free.to_le_bytes());
+    s[492..496].copy_from_slice(&next.to_le_bytes());
+    s[508..512].copy_from_slice(&0xAA55_0000u32.to_le_bytes());
+    s
+}
+
+const FI_LEAD: Field = Field { off: 0, width: 4 };
+const FI_STRUC: Field = Field { off: 484, width: 4 };
+const FI_FREE: Field = Field { off: 488, width: 4 };
+const FI_NEXT: Field = Field { off: 492, width: 4 };
+const FI_TRAIL: Field = Field { off: 508, width: 4 };
+
+// ---------------------------------------------------------------------------------------------------------------
+// streams
+// ---------------------------------------------------------------------------------------------------------------
+
+fn total_clusters_of(bs: &Sector) -> u64 {
+    catch(|| bpb_probe(bs, false)).and_then(Result::ok).map_or(0, |p| u64::from(p.total_clusters))
+}
+
+/// the witnesses of the known defects F7/F8 and their neighbourhood: always emitted first
+fn directed(g: &mut Gen, bases: &[Sector]) {
+    let f32small = bases[2];
+    let f32big = bases[3];
+    for base in [f32small, f32big, bases[4]] {
+        // F7: fats * sectors_per_fat
+        let mut s = with(&base, F_FATS, 255);
+        set(&mut s, F_SPF32, 0x0200_0000);
+        g.probe_both(&s);
+        g.mount(&s, &valid_fsinfo(1, 2), true);
+        g.probe_both(&with(&base, F_SPF32, 0xFFFF_FFFF));
+        g.probe_both(&with(&base, F_SPF32, 0x8000_0000));
+        g.probe_both(&with(&base, F_SPF32, 0x7FFF_FFFF));
+        // F7: reserved + fat sectors (+ root) with one FAT
+        let mut s = with(&base, F_FATS, 1);
+        set(&mut s, F_SPF32, 0xFFFF_FFFF);
+        g.probe_both(&s);
+        for d in 0..5u64 {
+            let rsvd = get(&base, F_RSVD);
+            set(&mut s, F_SPF32, 0x1_0000_0000 - rsvd - 2 + d);
+            g.probe_both(&s);
+        }
+        // F7: sectors_per_fat * bytes_per_sector * 8 on a volume that is otherwise fine
+        let bps = get(&base, F_BPS);
+        for d in 0..5u64 {
+            let mut s = with(&base, F_FATS, 1);
+            set(&mut s, F_TS32, 0xFFFF_FFFF);
+            set(&mut s, F_SPC, 128);
+            set(&mut s, F_SPF32, (1u64 << 32) / (bps * 8) - 2 + d);
+            g.probe_both(&s);
+            g.mount(&s, &valid_fsinfo(1, 2), true);
+            set(&mut s, F_SPF32, (1u64 << 32) / bps - 2 + d);
+            g.probe_both(&s);
+        }
+        // F8: root cluster never validated
+        let total = total_clusters_of(&base);
+        for rc in [0, 1, 2, 3, total, total + 1, total + 2, total + 3, 0x0FFF_FFF7, 0xFFFF_FFFF] {
+            let s = with(&base, F_ROOTCLUS, rc);
+            g.probe_both(&s);
+            g.mount(&s, &valid_fsinfo(1, 2), true);
+        }
+    }
+    // the witnesses of the theorems in Props/C07.lean, on the real code
+    {
+        let w = |spc: u64, rsvd: u64, fats: u64, ts32: u64, spf32: u64, ext: u64, rc: u64| {
+            let mut s = f32small;
+            set(&mut s, F_SPC, spc);
+            set(&mut s, F_RSVD, rsvd);
+            set(&mut s, F_FATS, fats);
+            set(&mut s, F_TS32, ts32);
+            set(&mut s, F_SPF32, spf32);
+            set(&mut s, F_EXTFLAGS, ext);
+            set(&mut s, F_ROOTCLUS, rc);
+            s
+        };
+        let fi = valid_fsinfo(1, 2);
+        for s in [
+            w(1, 8, 255, 69632, 0x0200_0000, 0, 2),
+            w(1, 8, 2, 69632, 0xFFFF_FFFF, 0, 2),
+            w(1, 8, 2, 69632, 0x8000_0000, 0, 2),
+            w(1, 8, 2, 69632, 0x7FFF_FFFC, 0, 2),
+            w(1, 8, 2, 69632, 0x7FFF_FFFB, 0, 2),
+            w(1, 8, 1, 69632, 0xFFFF_FFF8, 0, 2),
+            w(8, 32, 2, 1_075_838_944, 1_048_576, 0, 2),
+            w(8, 32, 2, 1_075_838_944, 1_048_575, 0, 2),
+            with(&w(1, 32, 2, 134_479_902, 131_072, 0, 2), F_BPS, 4096),
+            with(&w(1, 32, 2, 134_479_902, 131_071, 0, 2), F_BPS, 4096),
+            w(1, 8, 2, 69632, 536, 0, 0),
+            w(1, 8, 2, 69632, 536, 0, 1),
+            w(1, 8, 2, 69632, 536, 0, 68553),
+            w(1, 8, 2, 69632, 536, 0, 68554),
+            w(1, 8, 2, 69632, 536, 0, 0xFFFF_FFFF),
+            w(1, 8, 2, 268_436_535, 536, 0, 2),
+            w(1, 8, 2, 268_436_526, 536, 0, 2),
+            w(1, 8, 2, 268_436_525, 536, 0, 2),
+            w(1, 8, 2, 268_436_536, 536, 0, 2),
+            w(1, 32, 2, 69632, 1, 0, 2),
+            w(1, 8, 2, 69632, 536, 0x8F, 2),
+        ] {
+            g.probe_both(&s);
+            g.mount(&s, &fi, true);
+        }
+        g.mount(&f32small, &valid_fsinfo(68552, 68554), true);
+        g.mount(&f32small, &valid_fsinfo(68553, 68555), true);
+    }
+    // FAT12/16 layout: u16 sectors_per_fat cannot overflow the products on its own
+    for base in [bases[0], bases[1], bases[5]] {
+        let mut s = with(&base, F_FATS, 255);
+        set(&mut s, F_SPF16, 0xFFFF);
+        g.probe_both(&s);
+        set(&mut s, F_TS16, 0);
+        set(&mut s, F_TS32, 0xFFFF_FFFF);
+        g.probe_both(&s);
+        set(&mut s, F_BPS, 4096);
+        set(&mut s, F_SPC, 128);
+        g.probe_both(&s);
+        g.mount(&s, &valid_fsinfo(1, 2), true);
+    }
+}
+
+fn sweep8(g: &mut Gen, bases: &[Sector]) {
+    for base in bases {
+        for f in FIELDS8 {
+            for v in 0..256u64 {
+                let s = with(base, f, v);
+                let sig_field = f.off >= 510 || f.off == 0;
+                if sig_field {
+                    g.probe_both(&s);
+                } else {
+                    g.probe(&s, v % 2 == 0);
+                }
+            }
+        }
+    }
+}
+
+fn sweep16_interesting(g: &mut Gen, bases: &[Sector]) {
+    for base in bases {
+        for f in FIELDS16 {
+            for v in interesting(base, f) {
+                g.probe(&with(base, f, v), true);
+            }
+        }
+    }
+}
+
+fn sweep16_full(g: &mut Gen, base: &Sector, f: Field) {
+    for v in 0..65536u64 {
+        g.probe(&with(base, f, v), v % 7 != 0);
+    }
+}
+
+fn sweep32(g: &mut Gen, bases: &[Sector]) {
+    for base in bases {
+        for f in FIELDS32 {
+            for v in interesting(base, f) {
+                g.probe(&with(base, f, v), true);
+            }
+        }
+    }
+}
+
+fn pairs(g: &mut Gen, rng: &mut SplitMix64, bases: &[Sector], n: u64) {
+    for _ in 0..n {
+        let base = rng.pick(bases);
+        let f1 = *rng.pick(&GEO_FIELDS);
+        let f2 = *rng.pick(&GEO_FIELDS);
+        let mut s = with(base, f1, random_value(rng, base, f1));
+        let v2 = random_value(rng, &s, f2);
+        set(&mut s, f2, v2);
+        g.probe(&s, rng.chance(3, 4));
+    }
+}
+
+/// exhaustive small grids of pairs of interesting values for the field pairs that interact in the arithmetic
+fn pair_grids(g: &mut Gen, bases: &[Sector], stride: usize) {
+    let combos: [(Field, Field); 8] = [
+        (F_FATS, F_SPF32),
+        (F_BPS, F_SPF32),
+        (F_TS32, F_SPF32),
+        (F_SPC, F_TS32),
+        (F_RSVD, F_SPF32),
+        (F_BPS, F_SPC),
+        (F_FATS, F_SPF16),
+        (F_ROOT, F_BPS),
+    ];
+    let mut k = 0usize;
+    for base in bases {
+        for (f1, f2) in combos {
+            let v1s = if f1.width == 1 { (0..=8).map(|k| 1u64 << k).chain([0, 3, 255]).map(|v| v & 255).collect() } else { interesting(base, f1) };
+            for v1 in v1s {
+                let s1 = with(base, f1, v1);
+                for v2 in interesting(&s1, f2) {
+                    k += 1;
+                    if k % stride == 0 {
+                        g.probe(&with(&s1, f2, v2), true);
+                    }
+                }
+            }
+        }
+    }
+}
+
+fn random_combos(g: &mut Gen, rng: &mut SplitMix64, bases: &[Sector], n: u64) {
+    for _ in 0..n {
+        let mut s = *rng.pick(bases);
+        let k = rng.range(1, 6);
+        for _ in 0..k {
+            let f = if rng.chance(4, 5) {
+                *rng.pick(&GEO_FIELDS)
+            } else {
+                match rng.below(3) {
+                    0 => *rng.pick(&FIELDS8),
+                    1 => *rng.pick(&FIELDS16),
+                    _ => *rng.pick(&FIELDS32),
+                }
+            };
+            let v = random_value(rng, &s, f);
+            set(&mut s, f, v);
+        }
+        g.probe(&s, rng.chance(3, 4));
+    }
+}
+
+/// coherent big geometries built from scratch (not via the formatter): random legal bps/spc/fats, FAT exactly or
+/// nearly large enough, totals up to 2^32-1
+fn synthetic(g: &mut Gen, rng: &mut SplitMix64, bases: &[Sector], n: u64) {
+    for _ in 0..n {
+        let mut s = bases[2];
+        let bps = 512u64 << rng.below(4);
+        let spc = 1u64 << rng.below(8);
+        let fats = rng.range(1, 3);
+        let rsvd = *rng.pick(&[1u64, 8, 32, 33, 65535]);
+        let total = match rng.below(4) {
+            0 => 0xFFFF_FFFFu64 - rng.below(4),
+            1 => 1u64 << rng.range(17, 31),
+            _ => rng.range(70000, 0xFFFF_FFFF),
+        };
+        let clusters_guess = total / spc;
+        let spf_exact = ((clusters_guess + 2) * 4 + bps - 1) / bps;
+        let spf = match rng.below(4) {
+            0 => spf_exact,
+            1 => spf_exact + rng.below(3),
+            2 => spf_exact.saturating_sub(rng.below(3)),
+            _ => rng.range(1, spf_exact.max(2)),
+        } & 0xFFFF_FFFF;
+        set(&mut s, F_BPS, bps);
+        set(&mut s, F_SPC, spc);
+        set(&mut s, F_FATS, fats);
+        set(&mut s, F_RSVD, rsvd);
+        set(&mut s, F_TS32, total);
+        set(&mut s, F_SPF32, spf);
+        set(&mut s, F_BACKUP, if rsvd > 6 { 6 } else { 0 });
+        set(&mut s, F_FSINFO, if rsvd > 1 { 1 } else { 0 });
+        if rng.chance(1, 3) {
+            let meta = rsvd + fats * spf;
+            let clusters = total.saturating_sub(meta) / spc;
+            let mut v = Vec::new();
+            around(&mut v, 2, 0xFFFF_FFFF);
+            around(&mut v, clusters as i128 + 2, 0xFFFF_FFFF);
+            set(&mut s, F_ROOTCLUS, *rng.pick(&v));
+        }
+        g.probe(&s, true);
+    }
+}
+
+fn fsinfo_soup(g: &mut Gen, rng: &mut SplitMix64, bases: &[Sector], n: u64) {
+    let fat32: Vec<Sector> = vec![bases[2], bases[3], bases[4]];
+    // directed: every FS-info boundary on every FAT32 base, clean and dirty
+    for base in &fat32 {
+        let total = total_clusters_of(base);
+        let mut vals = pow_values(FI_FREE);
+        around(&mut vals, total as i128, 0xFFFF_FFFF);
+        around(&mut vals, total as i128 + 2, 0xFFFF_FFFF);
+        vals.sort_unstable();
+        vals.dedup();
+        for dirty in [0u64, 1, 2, 3, 0xFF] {
+            let bs = with(base, F_RES1_32, dirty);
+            for &v in &vals {
+                g.mount(&bs, &valid_fsinfo(v as u32, 2), true);
+                g.mount(&bs, &valid_fsinfo(5, v as u32), true);
+            }
+        }
+        for f in [FI_LEAD, FI_STRUC, FI_TRAIL] {
+            let good = get(&valid_fsinfo(0, 0), f);
+            for bit in 0..32 {
+                g.mount(base, &with(&valid_fsinfo(7, 9), f, good ^ (1 << bit)), true);
+            }
+            g.mount(base, &with(&valid_fsinfo(7, 9), f, 0), false);
+        }
+        // FS-info location: 0 reads the boot sector itself
+        for fi in [0u64, 1, 2, get(base, F_RSVD) - 1] {
+            g.mount(&with(base, F_FSINFO, fi), &valid_fsinfo(7, 9), true);
+        }
+    }
+    // FAT12/16 never read the FS-info sector
+    for base in [bases[0], bases[1], bases[5]] {
+        g.mount(&base, &valid_fsinfo(7, 9), true);
+        g.mount(&base, &[0u8; 512], false);
+        g.mount(&with(&base, F_RES1_16, 1), &valid_fsinfo(7, 9), true);
+    }
+    for _ in 0..n {
+        if g.full() {
+            return;
+        }
+        let mut bs = *rng.pick(bases);
+        if rng.chance(1, 2) {
+            let k = rng.range(1, 3);
+            for _ in 0..k {
+                let f = *rng.pick(&GEO_FIELDS);
+                let v = random_value(rng, &bs, f);
+                set(&mut bs, f, v);
+            }
+        }
+        if rng.chance(1, 3) {
+            let f = if get(&bs, F_SPF16) == 0 { F_RES1_32 } else { F_RES1_16 };
+            set(&mut bs, f, rng.below(4));
+        }
+        let total = total_clusters_of(&bs);
+        let mut vals = vec![0u64, 1, 2, 0xFFFF_FFFF, 0xFFFF_FFFE];
+        around(&mut vals, total as i128, 0xFFFF_FFFF);
+        around(&mut vals, total as i128 + 2, 0xFFFF_FFFF);
+        let free = if rng.chance(1, 4) { rng.next_u64() & 0xFFFF_FFFF } else { *rng.pick(&vals) };
+        let next = if rng.chance(1, 4) { rng.next_u64() & 0xFFFF_FFFF } else { *rng.pick(&vals) };
+        let mut fi = valid_fsinfo(free as u32, next as u32);
+        if rng.chance(1, 6) {
+            let f = *rng.pick(&[FI_LEAD, FI_STRUC, FI_TRAIL]);
+            let v = get(&fi, f) ^ (1 << rng.below(32));
+            set(&mut fi, f, v);
+        }
+        if rng.chance(1, 10) {
+            // reserved bytes are ignored
+            fi[4 + rng.below(480) as usize] = rng.next_u64() as u8;
+            fi[496 + rng.below(12) as usize] = rng.next_u64() as u8;
+        }
+        g.mount(&bs, &fi, rng.chance(3, 4));
+    }
+}
+
+/// not a boot sector at all
+fn malformed(g: &mut Gen, rng: &mut SplitMix64, n: u64) {
+    g.probe_both(&[0u8; 512]);
+    g.probe_both(&[0xFFu8; 512]);
+    for _ in 0..n {
+        let mut s = [0u8; 512];
+        for x in s.iter_mut() {
+            *x = rng.next_u64() as u8;
+        }
+        if rng.chance(1, 2) {
+            s[510] = 0x55;
+            s[511] = 0xAA;
+        }
+        g.probe(&s, rng.chance(1, 2));
+    }
+}
+
+pub fn run(tier: Tier, seed: u64, out: &mut dyn IoWrite) {
+    let mut rng = SplitMix64::new(seed ^ 0xB9B0_0000_0000_0007);
+    let bases = bases();
+    let limit = tier.pick(150_000u64, 5_000_000u64);
+    let mut g = Gen { out, n: 0, limit };
+
+    // the unmodified bases must mount
+    for base in &bases {
+        g.probe_both(base);
+        g.mount(base, &valid_fsinfo(100, 50), true);
+    }
+    directed(&mut g, &bases);
+    sweep8(&mut g, &bases);
+    sweep16_interesting(&mut g, &bases);
+    sweep32(&mut g, &bases);
+    fsinfo_soup(&mut g, &mut rng, &bases, tier.pick(6_000, 200_000));
+    malformed(&mut g, &mut rng, tier.pick(300, 20_000));
+    pair_grids(&mut g, &bases, tier.pick(40, 2));
+    match tier {
+        Tier::Quick => {
+            // one 16-bit field exhaustively per run, chosen by the seed
+            let f = FIELDS16[(seed % FIELDS16.len() as u64) as usize];
+            let base = bases[((seed / FIELDS16.len() as u64) % 3) as usize + if f.off >= 40 { 2 } else { 0 }];
+            sweep16_full(&mut g, &base, f);
+        }
+        Tier::Thorough => {
+            // every value of every 16-bit field on the three primary bases
+            for bi in [0usize, 1, 2] {
+                for f in FIELDS16 {
+                    sweep16_full(&mut g, &bases[bi], f);
+                }
+            }
+            for f in [F_BPS, F_RSVD, F_FSINFO, F_BACKUP, F_EXTFLAGS] {
+                sweep16_full(&mut g, &bases[3], f);
+            }
+        }
+    }
+    synthetic(&mut g, &mut rng, &bases, tier.pick(8_000, 300_000));
+    let rest = g.limit.saturating_sub(g.n);
+    pairs(&mut g, &mut rng, &bases, rest * 2 / 5);
+    let rest = g.limit.saturating_sub(g.n);
+    random_combos(&mut g, &mut rng, &bases, rest);
+}
